@@ -508,6 +508,10 @@ def gen_c07(rng):
     hist.append(chk(5))
     if kind == 'rec' and red in ('mean', 'median', 'max', 'min', 'sum', 'std') and nside_out >= cfg[0]:
         hist.append(dict(op='tohp', h=0, nside=nside_out, reduction=red, key=rng.choice([n_ for n_, _ in mk['fields']])))
+    if kind in ('float', 'int') and red in ('mean', 'median', 'max', 'min', 'sum', 'std') and rng.random() < 0.5:
+        # the degraded dense export (generate_healpix_map(nside=, reduction=)) in NEST and in RING order
+        # against degrade followed by export
+        hist.append(dict(op='tohp', h=0, nside=nside_out, reduction=red))
     hist.append(chk(0))                 # the source is unchanged
     if hw is not None:
         hist.append(chk(1, ['values', 'cov', 'valid', 'nvalid', 'raw']))     # and so are the weights
@@ -515,8 +519,17 @@ def gen_c07(rng):
 
 
 def gen_c15(rng):
-    kind = rng.choice(['float', 'int', 'bool', 'rec'])
+    kind = rng.choice(['float', 'int', 'bool', 'rec', 'float', 'int', 'rec', 'wide', 'packed'])
     cfg = rng.choice([(1, 2), (1, 4), (2, 4), (2, 8), (1, 1), (2, 2)])
+    if kind in ('wide', 'packed'):
+        # lookups with finer pixel numbers and fractional-detection maps (upgrade is not offered for these kinds)
+        mk = pick_map(rng, kinds=(kind,), h=0)
+        if kind == 'wide':
+            mk['nc'], mk['ns'] = cfg
+        mk['cov_pixels'] = None
+        hist = [mk] + fill_steps(rng, mk, 0, rng.randint(1, 3), forms=('pix', 'pix', 'setitem_arr'))
+        hist.append(chk(0, ['values', 'cov', 'valid', 'nvalid', 'fracdet', 'covmap', 'finer']))
+        return hist
     if kind == 'float':
         mk = mk_plain(rng, 0, cfg, rng.choice(FLT_DT), sentinel=rng.choice([None, -1.0]))
     elif kind == 'int':
@@ -1014,10 +1027,14 @@ def gen_c03(rng):
 # ------------------------------------------------------------------ C10: twins by different routes
 def gen_c10(rng):
     route = rng.choice(['shuffled', 'prealloc', 'cleared', 'wr', 'wr_partial', 'degrade', 'upgrade', 'astype', 'sop', 'single',
-                        'covpixmap', 'mop', 'copy', 'mklike', 'bmap', 'rewrap', 'shuffled_f'])
+                        'covpixmap', 'mop', 'copy', 'mklike', 'bmap', 'rewrap', 'shuffled_f', 'aspacked'])
     cfg = rng.choice([(1, 4), (2, 4), (2, 8), (1, 8), (4, 8)])
     hist = []
-    if route in ('degrade', 'upgrade', 'astype', 'sop', 'mop'):
+    if route == 'aspacked':
+        # an ordinary boolean map grown in arbitrary order, handed out again as a bit-packed map
+        cfg = rng.choice([c for c in CFGS_PACKED if c[1] >= 4 * c[0]])
+        mk = dict(op='mk', h=0, kind='plain', dtype='b', nc=cfg[0], ns=cfg[1], sentinel=None, cov_pixels=None)
+    elif route in ('degrade', 'upgrade', 'astype', 'sop', 'mop'):
         mk = mk_plain(rng, 0, cfg, rng.choice(['f8', 'f4', 'i4', 'i8']), sentinel=None)
     elif route == 'shuffled_f':
         # a float map grown in arbitrary order (continuations with weights apply to these)
@@ -1091,6 +1108,9 @@ def gen_c10(rng):
         m1 = 1
     elif route == 'rewrap':
         hist.append(dict(op='rewrap', h=0, out=1, pad=rng.randint(0, 5)))
+        m1 = 1
+    elif route == 'aspacked':
+        hist.append(dict(op='aspacked', h=0, out=1))
         m1 = 1
     elif route == 'mklike':
         hist.append(dict(op='mklike', h=0, out=1))
